@@ -87,6 +87,11 @@ TStep ==
              /\ ChkT(tr, 1, "synthesised time variable: length", Len(tr.synth.got) = NExpected(tr))
              /\ \A i \in 1..NExpected(tr) :
                   Chk(tr, i, "synthesised CF time variable vs flags", tr.synth.got[i], Expected(tr, i))
+             \* ... and the synthesised time_bounds variable gives the same n + 1 edges
+             /\ ChkT(tr, 1, "synthesised time_bounds: number of edges", Len(tr.synth.bgot) = NExpected(tr) + 1)
+             /\ \A i \in 1..NExpected(tr) :
+                  Chk(tr, i, "synthesised time_bounds: edge " \o ToString(i), tr.synth.bgot[i], Expected(tr, i))
+             /\ Chk(tr, NExpected(tr) + 1, "synthesised time_bounds: upper edge", tr.synth.bgot[NExpected(tr) + 1], ExpUpper(tr))
   /\ TrAccept(tr)
 
 TSpec == TInit /\ [][TStep]_tvars
